@@ -14,6 +14,9 @@ REQUIRED = ['getNBest_shape', 'plurality_shape', 'quotaSelector_refusals', 'ha_s
             'lr_shape', 'qd_shape', 'lr_shape_pos', 'qd_shape_pos', 'lr_refusals', 'quota_pos', 'lr_quota_nonpositive_refused',
             'getNBest_struct', 'breakSecondOrder_shape', 'copeland_shape', 'schulze_shape', 'minimax_shape',
             'positional_shape', 'positional_refusals', 'scorerOK_of_wf', 'approval_shape', 'approval_refusals',
+            'selectNRandom_shape', 'selectNRandom_error', 'sortitor_shape', 'random_ballot_shape', 'random_selectors_refusals_partial',
+            'random_ballot_exhausted_witness', 'rfc3797_shape', 'candidate_number_shape', 'selectLoop_popped', 'rfcLoop_popped',
+            'selectLoop_error', 'rfcLoop_error', 'sortitor_refusals', 'selectLoop_error_ones', 'accumulate_pop',
             'quotaSelector_shape', 'ha_refusals', 'list_tiebreaker_shape', 'alternative_threshold_shape', 'input_order_shape', 'abs_threshold_shape', 'rel_threshold_shape', 'openlist_shape',
             # Lemmas/ShapeRankedT2.lean
             'kemeny_shape', 'kemeny_refusals', 'rankedpairs_shape_partial', 'rankedpairs_shape_le_two', 'rankedpairs_refusals',
@@ -50,7 +53,7 @@ PROVED_FAMILIES = ['plurality', 'ha_d_hondt', 'ha_sainte_lague', 'ha_imperiali',
                    'condorcet_kemeny_young', 'condorcet_winner', 'smith_set', 'schwartz_set',
                    'stv_gregory_hare', 'stv_gregory_droop', 'stv_dist_gregory_droop', 'stv_gregory_hare_strict', 'stv_gregory_imperiali',
                    'rel_threshold_5pc', 'rel_threshold_5pc_decimal', 'rel_threshold_5pc_float', 'rel_threshold_third', 'abs_threshold_2', 'openlist_jump_5pc', 'openlist_quota_precedence',
-                   'openlist_tiebreaker_plurality', 'threshold_alternative', 'aux_input_order',
+                   'openlist_tiebreaker_plurality', 'threshold_alternative', 'aux_input_order', 'aux_sortitor', 'aux_random_ballot', 'aux_rfc3797', 'aux_candidate_number',
                    'lr_imperiali_subtract', 'lr_hagenbach_bischoff_subtract', 'qd_imperiali_subtract',
                    'baldwin', 'benham', 'tideman_alternative', 'allocated_score_hare', 'approval_pav', 'approval_spav', 'score_mean', 'score_sum0', 'score_median', 'majority_judgment_plus', 'star']
 PROVED_FAMILIES += [f + '_sparse' for f in PROVED_FAMILIES if f.startswith('condorcet_') or f in ('smith_set', 'schwartz_set')]
@@ -214,17 +217,20 @@ def _bookkeeping():
         pass
 _bookkeeping()
 NAME_MODES = ['str', 'int0', 'empty0', 'person', 'tuple']
-REQUIRED_COUNTERS = ['sel', 'dist', 'seatless', 'tie_in_result', 'modelled', 'refusal', 'few_votes', 'all_equal', 'truncation_empties', 'rotation', 'score_tied']
+REQUIRED_COUNTERS = ['sel', 'dist', 'seatless', 'tie_in_result', 'modelled', 'refusal', 'few_votes', 'all_equal', 'truncation_empties', 'rotation', 'score_tied', 'numbers_equal', 'numbers_none']
 RULE = ('every evaluator family built from the public selector/distributor classes of votelib.evaluate.* (shared table harness/families.py + the local '
         'list in this module: open list, list tie-breaker, auxiliary selectors, AlternativeThresholds, the subtract over-award policy, score voting with '
         'truncation) with its admissible vote type (simple, approval, ranked incl. shared ranks, score, pairwise through the real converter) x generated '
         'profiles with positive total weight (2-6 candidates) x 1 <= n_seats <= candidates present; directed cases: very few votes for many seats, all '
         'parties equal, a truncation that empties a candidate. Thorough adds every n per profile and a small-scope exhaustive enumeration (all simple '
         'profiles over <= 3 parties with counts 0..3 / 4 parties with counts 0..2, all ranked profiles of <= 2 distinct strict ballots over 3 candidates, '
-        'all approval profiles of <= 2 distinct ballots over 3 candidates, weights 1..2, every family, every n). Non-trivial = result is not an error; '
+        'all approval profiles of <= 2 distinct ballots over 3 candidates, weights 1..2, every family, every n). CandidateNumberRanker is run on numbered votelib.candidate.Person objects (distinct numbers, EQUAL numbers, a missing number None; candidates without a `number` attribute are outside its admissible input). Non-trivial = result is not an error; '
         'distinct by canonical request. Public classes no family reaches are listed under unmodelled with the property that exercises them.')
 NOT_VERIFIED = ['families listed under unproved: the entry names the statement that is FALSE of the current code (with its Lean witness and the open finding) and '
-                'what is proved instead; shape_aux_* (random / md5 based selectors) have no Lean model: shape decided by the oracle only',
+                'what is proved instead',
+                'Sortitor / RandomUnrankedBallotSelector / RFC3797Selector: the values of random.randrange resp. of the md5 chain are recorded from the run of the '
+                'implementation and are a parameter of the model (theorems hold for every draw sequence); bisect_left is modelled as the number of smaller '
+                'entries (cumulative sums of non-negative counts are sorted); RandomUnrankedBallotSelector is modelled for integer counts only',
                 'QuotaDistributor and QuotaSelector are documented as not filling all seats: "exactly n" is read as "at most n" for them (DESIGN 12.2); '
                 'candidates present for a Condorcet evaluator = candidates occurring in a pairwise entry',
                 'correspondence is order-insensitive among individually elected candidates where the implementation iterates a frozenset (approval and '
@@ -252,7 +258,17 @@ def generate(rng, tier):
                 k = rng.choice([10 ** 18 + 3, 2 ** 53 + 1, 10 ** 30 + 7, Fraction(1, 3), Fraction(5, 2)])
                 prof = fam_mod.scale(prof, k)
                 tags.append('big_weights' if k > 1000 else 'fraction_weights')
-            yield {'op': 'shape', 'family': f.name, 'prof': prof, 'n': n, '_tags': tags}
+            c = {'op': 'shape', 'family': f.name, 'prof': prof, 'n': n, '_tags': tags}
+            if f.name == 'aux_candidate_number':
+                # distinct numbers / EQUAL numbers (stable: dictionary order) / occasionally a candidate without number (None)
+                ids = fam_mod.candidates_of('simple', prof)
+                mode = rng.choice(['distinct', 'distinct', 'equal', 'equal', 'none'])
+                pool = rng.sample(range(1, 60), len(ids)) if mode == 'distinct' else [rng.randint(1, 3) for _ in ids]
+                if mode == 'none':
+                    pool[rng.randrange(len(pool))] = None
+                c['numbers'] = [[i, v] for i, v in zip(ids, pool)]
+                tags.append('numbers_' + mode)
+            yield c
     # directed: very few votes for many seats (rounded quotas reach 0), ties for the last remainder seat
     for fam in ['lr_hare_rounded', 'lr_hagenbach_bischoff_rounded', 'lr_droop', 'lr_hare', 'qd_droop', 'lr_imperiali_subtract',
                 'qd_imperiali_subtract']:
@@ -375,7 +391,26 @@ def small_scope(F):
                 yield {'op': 'shape', 'family': f.name, 'prof': prof, 'n': n, '_tags': [f.kind, 'small_scope']}
 
 
+def candidate_numbers(case):
+    """candidacy numbers of the candidates of an aux_candidate_number case: [[id, number | None], ...] (field `numbers`; cases without
+    it use distinct numbers running against the ids)"""
+    if case.get('numbers') is not None:
+        return [list(x) for x in case['numbers']]
+    return [[i, (7 * (50 - i)) % 53 + 1] for i in fam_mod.candidates_of('simple', case['prof'])]
+
+
+def _numbered_names(case):
+    """CandidateNumberRanker orders by the `number` attribute of the candidate objects: numbered votelib.candidate.Person objects
+    (candidates without that attribute are outside the evaluator's admissible input)"""
+    import votelib.candidate
+    nums = dict((i, v) for i, v in candidate_numbers(case))
+    top = max(nums) + 1
+    return Names(names=[votelib.candidate.Person(f'cand{i}', number=nums.get(i)) for i in range(top)])
+
+
 def impl(case):
+    if case['family'] == 'aux_candidate_number':
+        return fam_mod.run_family(fams()[case['family']], case['prof'], case['n'], _numbered_names(case))
     return fam_mod.run_family(fams()[case['family']], case['prof'], case['n'], NAMES)
 
 
@@ -389,7 +424,9 @@ def oracle(case, obs):
             return []
         if f.declared:
             return [('undeclared_exception:' + obs['err'], f'{f.name}: {obs["err"]}')]
-        if obs['err'] == 'TypeError' and len(cands) >= n and f.name != 'aux_candidate_number':   # (that family needs numbered candidate objects)
+        if f.name == 'aux_candidate_number' and obs['err'] == 'TypeError' and any(v is None for _, v in candidate_numbers(case)):
+            return []      # a candidate WITHOUT candidacy number cannot be ranked by it: observation (the model says TypeError too)
+        if obs['err'] == 'TypeError' and len(cands) >= n:
             # sentence 1 (every selection evaluator lists n entries when n candidates are present): a TypeError is never a
             # refusal of the election but a slip in a call (e.g. a missing argument) - no evaluator answers that way on purpose
             return [('no_result:TypeError', f'{f.name}: TypeError with {len(cands)} candidates for {n} seats')]
@@ -439,11 +476,142 @@ def zero_quota(case):
         return False
 
 
+# ---- the recorded defects' own preconditions, computed by the oracle independently of the implementation's code path and of the
+# ---- Lean model: an open finding is only "known" on inputs where its recorded cause is present (anything else gets another signature)
+
+def pa_passing(case):
+    """PreferenceAddition (Bucklin / Oklahoma, shared ranks split evenly over their orders): the number of candidates whose cumulated
+    preference total after the LAST round exceeds half the votes.  A candidate of a shared rank of size g starting at place s stands at
+    each of the places s..s+g-1 in the same share of the orders, so its coefficient is the average over those places."""
+    coef = (lambda i: Fraction(1)) if case['family'] == 'bucklin' else (lambda i: Fraction(1, i + 1))
+    tot, total_w = {}, Fraction(0)
+    for b, w in case['prof']:
+        w = Fraction(w)
+        total_w += w
+        pos = 0
+        for it in b:
+            g = it if isinstance(it, list) else [it]
+            avg = sum(coef(pos + j) for j in range(len(g))) / len(g)
+            for c in g:
+                tot[c] = tot.get(c, 0) + w * avg
+            pos += len(g)
+    return sum(1 for v in tot.values() if v > total_w / 2)
+
+
+def rp_unranked(case):
+    """ranked pairs: lock the pairs of the pairwise dictionary from the strongest on (strength by the family's scorer, then by count,
+    equal ones in dictionary order), skipping a pair that would close a cycle -> (candidates that win some locked pair, the others =
+    the candidates the locked pairs leave unranked)"""
+    pw = {(a, b): Fraction(w) for a, b, w in _pairwise(case)}
+    kind = _bf(case['family'])[len('condorcet_rankedpairs_'):]
+    if kind == 'winvotes':
+        score = {p: (v if v > pw.get((p[1], p[0]), 0) else 0) for p, v in pw.items()}
+    elif kind == 'margins':
+        score = {p: v - pw.get((p[1], p[0]), 0) for p, v in pw.items()}
+    else:
+        score = dict(pw)
+    order = sorted(pw, key=lambda p: (-score[p], -pw[p]))        # sorted() is stable: equal keys keep the dictionary order
+    locked = []
+
+    def reach(src, dst):
+        seen, todo = {src}, [src]
+        while todo:
+            x = todo.pop()
+            for a, b in locked:
+                if a == x and b not in seen:
+                    seen.add(b)
+                    todo.append(b)
+        return dst in seen
+    for a, b in order:
+        if not reach(b, a):
+            locked.append((a, b))
+    cands = {c for p in pw for c in p}
+    sources = {a for a, _ in locked}
+    return sources, cands - sources
+
+
+def mj_candidate_runs_out(case):
+    """majority judgment, default tie-break: the candidates level with the n-th median lose one median grade each per step (every one of
+    them stays in the running until it is elected) until the medians fill the contested places.  Does some of them run out of grades
+    while another still has some?  (the recorded cause of the StatisticsError: the median of no grades; when ALL run out together
+    the evaluator refuses properly)"""
+    grades = {}
+    for b, w in case['prof']:
+        for c, g in b:
+            grades.setdefault(c, []).extend([Fraction(g)] * int(Fraction(w)))
+
+    def lmed(l):
+        return sorted(l)[(len(l) - 1) // 2]
+
+    def cut(med, k):
+        srt = sorted(med.values(), reverse=True)
+        tau = srt[k - 1]
+        return [c for c, v in med.items() if v > tau], [c for c, v in med.items() if v == tau]
+    k = case['n']
+    if len(grades) <= k:
+        return False
+    above, level = cut({c: lmed(l) for c, l in grades.items()}, k)
+    if len(above) + len(level) <= k:
+        return False
+    k -= len(above)
+    ms = {c: list(grades[c]) for c in level}
+    for _ in range(100000):
+        if all(len(l) == 0 for l in ms.values()):
+            return False
+        if any(len(l) == 0 for l in ms.values()):
+            return True
+        med = {c: lmed(l) for c, l in ms.items()}
+        above, level = cut(med, k)
+        if len(above) + len(level) <= k:
+            return False
+        if above:
+            k -= len(above)
+            for c in above:
+                del ms[c]
+            continue
+        for c, l in ms.items():
+            l.remove(med[c])
+    return False
+
+
+def truncation_empties(case):
+    """score voting with truncation 1/4: the cutoff int(n_voters / 4) is taken off both ends of every candidate's grades - is some
+    candidate graded by at most 2 * cutoff voters?  (the recorded cause of the StatisticsError)"""
+    n_votes = sum(int(Fraction(w)) for _, w in case['prof'])
+    cutoff = int(Fraction(n_votes, 4))
+    counts = {}
+    for b, w in case['prof']:
+        for c, _ in b:
+            counts[c] = counts.get(c, 0) + int(Fraction(w))
+    return cutoff > 0 and any(v <= 2 * cutoff for v in counts.values())
+
+
 def signature(case, clause):
     f = case['family']
     if clause == 'undeclared_exception:ZeroDivisionError' and zero_quota(case):
         return 'shape:largest_remainder_family:zero_quota:' + clause
     grp = 'largest_remainder_family' if f.startswith(('lr_', 'qd_')) else 'preference_addition' if f in ('bucklin', 'oklahoma') else 'ranked_pairs' if f.startswith('condorcet_rankedpairs') else f
+    try:
+        if grp == 'preference_addition' and clause == 'wrong_length':
+            obs = impl(case)
+            recorded = (isinstance(obs, list) and not any(isinstance(x, dict) for x in obs) and len(obs) < case['n']
+                        and len(obs) == pa_passing(case))
+            if not recorded:
+                return f'shape:{grp}:wrong_length:not_the_majority_quota_count'
+        if grp == 'ranked_pairs' and clause == 'wrong_length':
+            obs = impl(case)
+            sources, rest = rp_unranked(case)
+            cands = sources | rest
+            recorded = (isinstance(obs, list) and not any(isinstance(x, dict) for x in obs) and len(rest) >= 2
+                        and len(obs) == len(sources) + 1 and sources <= set(obs) and (cands - set(obs)) <= rest)
+            if not recorded:
+                return f'shape:{grp}:wrong_length:not_the_unranked_leftovers'
+        if f == 'majority_judgment' and clause == 'undeclared_exception:StatisticsError' and not mj_candidate_runs_out(case):
+            return f'shape:{grp}:{clause}:no_candidate_runs_out_of_grades'
+        if f == 'score_median_trunc_quarter' and clause == 'undeclared_exception:StatisticsError' and not truncation_empties(case):
+            return f'shape:{grp}:{clause}:no_candidate_emptied_by_the_cutoff'
+    except Exception as e:      # a precondition that cannot be computed never makes a violation "known"
+        return f'shape:{grp}:{clause}:precondition_failed:{type(e).__name__}'
     return f"shape:{grp}:{clause}"
 
 
@@ -504,6 +672,16 @@ def model_line(case):
         return {'op': 'preference_addition', 'votes': case['prof'], 'n': case['n'], 'coef': f, 'split': True}
     if f == 'aux_input_order':
         return {'op': 'input_order', 'votes': case['prof'], 'n': case['n']}
+    if f in ('aux_sortitor', 'aux_random_ballot'):
+        if not all(Fraction(w).denominator == 1 for _, w in case['prof']):
+            return None          # rational counts take another branch of select_n_random (integer counts only)
+        return {'op': 'sortitor' if f == 'aux_sortitor' else 'random_ballot', 'votes': case['prof'], 'n': case['n'],
+                'draws': [num_str(d) for d in _recorded_draws(case)]}
+    if f == 'aux_rfc3797':
+        ev = fams()[f].make()
+        return {'op': 'rfc3797', 'votes': case['prof'], 'n': case['n'], 'draws': [ev._random_value(i) for i in range(case['n'])]}
+    if f == 'aux_candidate_number':
+        return {'op': 'candidate_number', 'votes': case['prof'], 'n': case['n'], 'numbers': candidate_numbers(case)}
     if f == 'threshold_alternative':
         return {'op': 'seatless', 'votes': case['prof'], 'prev': None, 'members': [], 'props': [],
                 'sel': {'k': 'alt', 'parts': [{'k': 'abs', 't': '2', 'eq': True}, {'k': 'rel', 't': '1/5', 'eq': True}]}}
@@ -527,6 +705,25 @@ def model_line(case):
         return {'op': 'quota_selector', 'n': case['n'], 'votes': case['prof'], 'quota': f[len('quota_selector_'):],
                 'accept_equal': True, 'on_more': 'select'}
     return None
+
+
+def _recorded_draws(case):
+    """the values random.randrange really returns while the implementation evaluates the case (the seeded generator of the random
+    selectors): the model's `draws` parameter"""
+    import random
+    rec = []
+    orig = random.randrange
+
+    def recording(*a, **kw):
+        v = orig(*a, **kw)
+        rec.append(v)
+        return v
+    random.randrange = recording
+    try:
+        fam_mod.run_family(fams()[case['family']], case['prof'], case['n'], NAMES)
+    finally:
+        random.randrange = orig
+    return rec
 
 
 def has_shared(prof):
@@ -630,7 +827,7 @@ LEVEL_TEXT = ('For every modelled evaluator family the result-shape schema (exac
               'under explicit decidable well-formedness: plurality, quota selector, highest averages, largest remainder and quota distributor (all three '
               'over-award policies), STV selector and distributor, Copeland (both), Schulze, minimax (three scorers), Kemeny-Young, Benham (one seat), Tideman alternative (n seats), allocated score, positional voting (six scorers), '
               'AV, SAV, PAV, SPAV, score voting, majority judgment (shape; refusals for tie_breaking=plus), STAR, Baldwin, thresholds, open list, list tie-breaker, '
-              'Condorcet winner / Smith / Schwartz sets, InputOrderSelector. Where the code violates the schema the strongest true part is proved (_partial) and the '
+              'Condorcet winner / Smith / Schwartz sets, InputOrderSelector, CandidateNumberRanker, Sortitor / RandomUnrankedBallotSelector / RFC3797Selector (for every draw sequence). Where the code violates the schema the strongest true part is proved (_partial) and the '
               'violation is a kernel-checked witness + open finding: ranked pairs and PreferenceAddition (short lists), majority judgment default tie-break (StatisticsError), score truncation (StatisticsError).')
 LEVEL_NOTE = ('Trusted: Lean kernel + standard axioms; the models are tied to the code by the correspondence run of this check (and of the owning properties). '
-              'Partial: 4 random/md5-based auxiliary selectors are decided by the oracle only; wrappers and nested-vote evaluators are exercised by C14/C07/C18.')
+              'Wrappers and nested-vote evaluators are exercised by C14/C07/C18.')
